@@ -398,7 +398,7 @@ impl System for MsgWire {
         json!(msg_str(&self.alpha.msgs[a]))
     }
     fn config_json(&self) -> Value {
-        json!({"system": "msg-wire", "automatic": self.automatic})
+        json!({"system": "msg-wire", "automatic": self.automatic, "alphabet": self.alpha.name})
     }
     fn step(&self, s: &MsgState, a: usize) -> Step<MsgState> {
         let m = &self.alpha.msgs[a];
@@ -421,7 +421,7 @@ impl System for MsgWire {
             }
         };
         let kind = match m {
-            Message::SendData(_, d) => format!("SendData-len{}", match d.get().len() { 0 => "0", 1 => "1", 15 => "15", _ => "16" }),
+            Message::SendData(_, d) => format!("SendData-len{}", match d.get().len() { 0 => "0", 1 => "1", 2..=15 => "2-15", 16 => "16", _ => "17+" }),
             Message::Unknown(f) => format!("Unknown-type{:02X}-len{}", f.message_type().0, f.data().len().min(2)),
             other => crate::refmodel::kind_name(other).to_string(),
         };
@@ -582,6 +582,17 @@ pub fn run(ctx: &Ctx) -> Report {
             }
         }
     }
+    if thorough {
+        // every chunk length 0..=255 crosses the wire (R1 alphabet), manual flip
+        let mut a = crate::signsys::alphabet_r1(true);
+        a.name = "R1-all-lengths-over-the-wire".into();
+        let sys = MsgWire { alpha: a, automatic: false };
+        let res = bfs(&sys, 2_000_000, &deadline);
+        absorb_bfs(&mut rep, &sys.name(), &res.stats, &mut runs);
+        for v in res.violations {
+            rep.violation(v);
+        }
+    }
     for automatic in [false, true] {
         let sys = MsgWire { alpha: msg_alphabet(), automatic };
         let res = bfs(&sys, 2_000_000, &deadline);
@@ -654,7 +665,8 @@ pub fn replay(ctx: &Ctx, case: &Value) -> Result<Vec<Violation>, String> {
                     Ok(mk(replay_path(&sys, &path)?))
                 }
                 Some("msg-wire") => {
-                    let sys = MsgWire { alpha: msg_alphabet(), automatic: sj["automatic"].as_bool().unwrap_or(false) };
+                    let alpha = if sj["alphabet"].as_str() == Some("R1-all-lengths-over-the-wire") { let mut a = crate::signsys::alphabet_r1(true); a.name = "R1-all-lengths-over-the-wire".into(); a } else { msg_alphabet() };
+                    let sys = MsgWire { alpha, automatic: sj["automatic"].as_bool().unwrap_or(false) };
                     Ok(mk(replay_path(&sys, &path)?))
                 }
                 _ => Err("unknown system".into()),
